@@ -913,6 +913,7 @@ func (c *container) GetAffinity() ([]*Affinity, error) {
 	pod, ok := c.GetPod()
 	if !ok {
 		log.Error("internal error: can't find Pod for container %s", c.PrettyName())
+		return nil, cacheError("can't find pod for container %s", c.PrettyName())
 	}
 	affinity, err := pod.GetContainerAffinity(c.GetName())
 	if err != nil {
